@@ -23,7 +23,7 @@ namespace Modbus.Driver
 open Modbus Wire
 
 /-! scripted handler shared with the Go harness -/
-inductive Beh | ok | short | long | nil | err (e : Err)
+inductive Beh | ok | short | long | huge | nil | err (e : Err)
   deriving Repr
 
 def parseBeh (s : String) : Option Beh :=
@@ -31,6 +31,7 @@ def parseBeh (s : String) : Option Beh :=
   | "ok" => some .ok
   | "short" => some .short
   | "long" => some .long
+  | "huge" => some .huge
   | "nil" => some .nil
   | _ => if s.startsWith "e:" then (errOfName (s.drop 2).toString).map .err else none
 
@@ -42,6 +43,7 @@ def sized (b : Beh) (q : Nat) : Nat :=
   | .ok => q
   | .short => q - 1
   | .long => q + 1
+  | .huge => q + 65536
   | _ => 0
 
 def scripted (script : List Beh) : Server.Handler Nat :=
